@@ -1605,8 +1605,16 @@ void DOMLSSerializerImpl::procUnrepCharInCdataSection(const XMLCh*   const nodeV
 
             while (srcPtr < endPtr)
             {
-                // Build a char ref for the current char
-                XMLString::binToText(*srcPtr, &tmpBuf[3], 8, 16, fMemoryManager);
+                // Build a char ref for the current char; a surrogate pair is
+                // one character and is referred to by its code point
+                unsigned int toRef = *srcPtr;
+                if ((toRef & 0xFC00) == 0xD800 && (srcPtr + 1) < endPtr &&
+                    (*(srcPtr + 1) & 0xFC00) == 0xDC00)
+                {
+                    srcPtr++;
+                    toRef = 0x10000 + ((toRef - 0xD800) << 10) + (*srcPtr - 0xDC00);
+                }
+                XMLString::binToText(toRef, &tmpBuf[3], 8, 16, fMemoryManager);
                 const XMLSize_t bufLen = XMLString::stringLen(tmpBuf);
                 tmpBuf[bufLen] = chSemiColon;
                 tmpBuf[bufLen+1] = chNull;
